@@ -330,7 +330,7 @@ func init() {
 		Level:   "exploration",
 		Workers: 1,
 		Rule: "every integer type declared in types.go (extracted with go/types) and every constant of it declared anywhere in the package: a generated program calls String() on all 256 values of 8-bit types, all 65536 values of 16-bit types, and for wider types on every constant and its neighbours, every value below 2^16, every power of two and its neighbours, and values sharing their low 16 bits with a constant (thorough tier: all 2^32 values of every 32-bit type); expected = constant name without the type prefix (any of the names sharing the value), otherwise Type(n). " +
-			"Regeneration: the repository's fitstringer is run (through a driver placed by build overlay) on the sorted type list of types.go and its output compared byte-for-byte with the checked-in types_string.go, also when the generator runs under GOMAXPROCS = 1, 2, 3, 5, 6, 7, 12. Through the command: fitgen run on bundled workbooks (quick: 2, thorough: 5) into an empty directory and into directories that already hold the same types.go with string tables of another SDK version / cut in half, only stale tables, or another version's complete output — the tables left must be those of the fresh run. distinct = values that are named constants",
+			"Regeneration: the repository's fitstringer is run (through a driver placed by build overlay) on the sorted type list of types.go and its output compared byte-for-byte with the checked-in types_string.go, also when the generator runs under GOMAXPROCS = 1, 2, 3, 5, 6, 7, 12. Synthetic types: the stringer on hypothetical types with runs of 513 and 4100 constants (names above 8 KiB / 64 KiB), 700 runs, 32-bit values around 2^16 and 2^31 and an 8-bit type with 255 constants (FIT keeps the top value of every type as its invalid value): generated, compiled, every constant and neighbour printed. Through the command: fitgen run on bundled workbooks (quick: 2, thorough: 5) into an empty directory and into directories that already hold the same types.go with string tables of another SDK version / cut in half, only stale tables, or another version's complete output — the tables left must be those of the fresh run. distinct = values that are named constants",
 		Assumptions: []string{"Bool (types_man.go) is hand-written and outside the statement"},
 		Run:         runC20,
 	})
@@ -470,6 +470,80 @@ func runC20(w *vx.W) {
 		w.Violation("string-tables-stale", fmt.Sprintf("types_string.go differs from what fitstringer generates from types.go (first difference at byte %d, line %d; checked-in %d bytes, regenerated %d bytes)", i, line, len(have), len(gen)), nil)
 	}
 	c20ThroughCommand(w, scratch)
+	c20SyntheticTypes(w, scratch, regenBin)
+}
+
+// c20SyntheticTypes: the repository's stringer on hypothetical profile types far larger than today's — a run of 513
+// and of 4100 consecutive constants whose names total more than 8 KiB and more than 64 KiB, a type with 700 runs, a
+// 32-bit type with constants around 2^16 and 2^31, an 8-bit type with 255 constants (FIT reserves the top value of a
+// type as invalid, so no profile type is full) — generated, compiled and every constant (and its neighbours)
+// printed: the name without the type prefix, Type(n) otherwise.
+func c20SyntheticTypes(w *vx.W, scratch, regenBin string) {
+	dir := filepath.Join(scratch, "synthetic")
+	os.MkdirAll(dir, 0o755)
+	type ty struct {
+		name, base string
+		vals       []uint64
+	}
+	var tys []ty
+	seq := func(n int, start, step uint64) []uint64 {
+		v := make([]uint64, n)
+		for i := range v {
+			v[i] = start + uint64(i)*step
+		}
+		return v
+	}
+	tys = append(tys, ty{"Longrun", "uint16", seq(513, 0, 1)}, ty{"Hugerun", "uint16", seq(4100, 3, 1)}, ty{"Manyruns", "uint16", seq(700, 1, 3)},
+		ty{"Wide", "uint32", append(seq(300, 65400, 1), seq(40, 1<<31-20, 1)...)}, ty{"Tiny", "uint8", seq(255, 0, 1)})
+	var src, chk strings.Builder
+	src.WriteString("package main\n\n")
+	chk.WriteString("package main\n\nimport (\n\t\"fmt\"\n\t\"os\"\n)\n\nfunc main() {\n\tbad := 0\n\tcheck := func(got, want string) {\n\t\tif got != want {\n\t\t\tif bad < 5 {\n\t\t\t\tfmt.Printf(\"String() = %q, expected %q\\n\", got, want)\n\t\t\t}\n\t\t\tbad++\n\t\t}\n\t}\n")
+	var names []string
+	total := 0
+	for _, t := range tys {
+		names = append(names, t.name)
+		fmt.Fprintf(&src, "type %s %s\n\nconst (\n", t.name, t.base)
+		is := map[uint64]bool{}
+		for i, v := range t.vals {
+			n := fmt.Sprintf("Value%05dOfTheSyntheticType", i)
+			fmt.Fprintf(&src, "\t%s%s %s = %d\n", t.name, n, t.name, v)
+			fmt.Fprintf(&chk, "\tcheck(%s(%d).String(), %q)\n", t.name, v, n)
+			is[v] = true
+			total++
+		}
+		src.WriteString(")\n\n")
+		for _, v := range t.vals {
+			for _, u := range []uint64{v - 1, v + 1} {
+				if !is[u] && !(t.base == "uint8" && u > 255) && !(t.base == "uint16" && u > 65535) && u < 1<<32 {
+					fmt.Fprintf(&chk, "\tcheck(%s(%d).String(), \"%s(%d)\")\n", t.name, u, t.name, u)
+					is[u] = true // once
+				}
+			}
+		}
+	}
+	chk.WriteString("\tif bad > 0 {\n\t\tfmt.Printf(\"%d mismatches\\n\", bad)\n\t\tos.Exit(1)\n\t}\n}\n")
+	os.WriteFile(filepath.Join(dir, "types.go"), []byte(src.String()), 0o644)
+	os.WriteFile(filepath.Join(dir, "check.go"), []byte(chk.String()), 0o644)
+	os.WriteFile(filepath.Join(dir, "go.mod"), []byte("module synthetic\n\ngo 1.21\n"), 0o644)
+	rg := exec.Command(regenBin, strings.Join(names, ","), "types.go")
+	rg.Dir = dir
+	rg.Env = goEnv()
+	var stderr bytes.Buffer
+	rg.Stderr = &stderr
+	gen, err := rg.Output()
+	w.Eval(int64(total))
+	w.Fam("synthetic-large-types", int64(total))
+	if err != nil {
+		w.Violation("synthetic/generation-fails", fmt.Sprintf("fitstringer.Generate fails on types with 256 ... 4100 constants: %v %s", err, trunc(stderr.String(), 400)), nil)
+		return
+	}
+	os.WriteFile(filepath.Join(dir, "types_string.go"), gen, 0o644)
+	run := exec.Command("go", "run", ".")
+	run.Dir = dir
+	run.Env = goEnv()
+	if out, err := run.CombinedOutput(); err != nil {
+		w.Violation("synthetic/wrong-or-uncompilable-tables", fmt.Sprintf("string tables generated for types with 256 ... 4100 constants (names totalling more than 8 KiB / 64 KiB in one run): %v: %s", err, trunc(string(out), 600)), nil)
+	}
 }
 
 // c20ThroughCommand: the tables the fitgen *command* leaves next to the types it generates. The output directory is an
